@@ -12,7 +12,10 @@
 //! * the public ambient setter the tree has (`buggify::set_config`, the only thread-local /
 //!   static in the library: `BUGGIFY_CONTEXT`) is called with a generated preset before the run
 //!   under test is constructed;
-//! * a probe simulation is constructed and dropped while the run under test is alive.
+//! * a probe simulation is constructed and dropped while the run under test is alive;
+//! * the host thread sleeps for a generated real-time interval (0 / 70 / 130 ms) after the run
+//!   under test was constructed and/or in the middle of its run: wall-clock time is ambient
+//!   state too, and a simulation must not notice how much of it passes.
 //!
 //! Contracts respected (see notes/C20.md):
 //! * `DSTSimulation` / `RedisDSTSimulation` install their own fault preset when constructed
@@ -62,6 +65,12 @@ pub struct DirtyCtx {
     pub ambient: Option<u8>,
     pub probe_after_construct: bool,
     pub probe_mid: bool,
+    /// real (wall-clock) time the host thread sleeps right after the run under test was
+    /// constructed / in the middle of its run; nothing inside the simulation is touched
+    #[serde(default)]
+    pub stall_after_construct_ms: u16,
+    #[serde(default)]
+    pub stall_mid_ms: u16,
 }
 
 /// cheap (harness, preset) pairs used as warm-ups
@@ -189,7 +198,12 @@ pub fn with_dirty_context<R>(ctx: &DirtyCtx, harness: &str, preset: &str, seed: 
     let (pa, pm) = (ctx.probe_after_construct, ctx.probe_mid);
     let (hname, pname) = (harness.to_string(), preset.to_string());
     let fallback = ctx.ambient.unwrap_or(1);
+    let (sa, sm) = (ctx.stall_after_construct_ms, ctx.stall_mid_ms);
     let hook = move |p: Point| {
+        let stall = if p == Point::Constructed { sa } else { sm };
+        if stall > 0 {
+            std::thread::sleep(std::time::Duration::from_millis(stall as u64));
+        }
         let want = if p == Point::Constructed { 1 } else { 2 };
         for (at, obj) in held.iter_mut() {
             if *at == want {
